@@ -374,6 +374,7 @@ public:
       ctx.beginStep(static_cast<long>(i), o);
       if (o.k == "sel") opSel(o);
       else if (o.k == "seth") { static const double M[] = {1, 0.5, 0.2, 0.1}; h = M[static_cast<size_t>(std::abs(o.b)) % 4] * std::pow(10.0, -(2.0 + static_cast<double>(std::abs(o.a) % 4))); w->setInterval(h); if (w->getInterval() != h) ctx.fail("model-mismatch:getInterval", "model-mismatch:getInterval", "getInterval differs from the value set"); invalidate(); ctx.ok(); }
+      else if ((o.k == "d1" || o.k == "d2") && sc.lazyEnable) { ctx.outcome("skip"); }   // switching first/second-derivative computation is outside the quantifier; with a lazily enabling peer it would leave the peer's analytic tables stale by the peer's own contract
       else if (o.k == "d1") { d1 = o.a & 1; w->enableFirstOrderDerivatives(d1); invalidate(); ctx.ok(); }
       else if (o.k == "d2") { d2 = o.a & 1; w->enableSecondOrderDerivatives(d2); invalidate(); ctx.ok(); }
       else if (o.k == "cross") {
@@ -691,7 +692,8 @@ public:
     i.tolerances["derivative"] = "|numeric - analytic| <= 1024*eps*(P|.|(|x|+H e_v)/hmin^d + |d^d P|.|/dx_v^d|) + sum_{k>E} 2k|c_k|H^(k-d); P|.| = polynomial with absolute coefficients, c_k = Taylor coefficients of the known polynomial along the variable at the point, hmin/H = smallest spacing / largest offset of the probes the peer actually received, E = exact degree: two-point d1: 1; three-point central d1: 2, d2: 3; five-point central d1: 4, d2: 5; any one-sided fallback d1: 1, d2: 2. Worst unchanged-tree error/unit ratio measured over 8e5 runs: d1 3.2, d2 5.9, cross 0.25 (margin > 170x)";
     i.tolerances["cross"] = "|numeric - analytic| <= 1024*eps*(P|.|/(h1*h2) + |d2P|.||) + sum_{i,j>=1,i+j>=4} 2(i+j)|c_ij|max(h1,h2)^(i+j-2) (central four-corner scheme: exact to total degree 3, order 2)";
     i.tolerances["transparency"] = "exact (==) on every parameter of the wrapped function, on wrapper.getValue(), function.getValue() and the return value of f()";
-    i.assumptions = {"after an entry-point call that raises, nothing is asserted and the model re-synchronises from the wrapped function (the statement speaks about calls that return)",
+    i.assumptions = {"the first/second-derivative switches of the wrapper are only toggled in runs whose peer recomputes its analytic tables when re-enabled (toggling them is outside the quantifier; a lazily enabling peer legitimately keeps stale tables until its next evaluation)",
+                     "after an entry-point call that raises, nothing is asserted and the model re-synchronises from the wrapped function (the statement speaks about calls that return)",
                      "derivative values are asserted only for variables refreshed by the last returned update under the current configuration (selection, step and enable flags unchanged since), with first-order derivatives enabled (the numerical branch is skipped otherwise)",
                      "derivative values when neither side of the point has room for the nominal probes are not asserted (NaN, garbage or a raise from the five-point scheme are accepted)",
                      "cross derivatives are asserted only for the three-point scheme with every involved variable having both nominal probes feasible (the code documents that it raises at a limit); a raise from cross probes next to a bound is accepted",
